@@ -22,13 +22,14 @@ REPO = os.environ.get("VERIF_REPO", "/repo")
 
 D9_OPS = "set k0 v; set k1 v; set k2 v; set k3 v; set k4 v; set k5 v; set k6 v; set k7 v; set k8 v; del k0; get k0; merge; get k0; reopen; get k0"
 
-STORE = ("C01", "C02", "C03", "C04", "C05", "C09", "C12", "C13", "C14", "C17", "C19", "C20")
+STORE = ("C01", "C02", "C03", "C04", "C05", "C09", "C12", "C13", "C14", "C17", "C19", "C20")   # C18 has its own scenario only
 SCENARIOS = {
     # pid -> list of (name, argv, counts-as-evaluations)
     "C07": [("frame-search", ["frame-search"]), ("frame-deep", ["frame-deep", "200000"])],
     "C08": [("frame-search", ["frame-search"]), ("conn-search", ["conn-search"]), ("decimal-search", ["decimal-search", "10000000"])],
     "C17": [("store-closed", ["store-closed"])],
     "C15": [("server-slots", ["server-slots"]) for _ in range(3)],
+    "C18": [("store-background", ["store-background"]) for _ in range(3)],
     "C16": [("server-shutdown", ["server-shutdown", str(i)]) for i in range(1, 7)],
     "C04": [("store-concurrent", ["store-concurrent", str(i), "1500"]) for i in range(1, 9)],
     "C10": [("frame-search", ["frame-search"]), ("frame-deep", ["frame-deep", "200000"]), ("server-hostile", ["server-hostile"])] + [("server-search", ["server-search", str(i)]) for i in range(4)],
